@@ -10,58 +10,6 @@ From J5V.proofs Require Import StrcaseProofs EntityProofs EntitySpec EntitySpecP
 Import ListNotations.
 Local Open Scope N_scope.
 
-(* the type the schema language gives an item: a scalar / well-known message / reference by name *)
-Definition sp_item_type (i : ikind) : otype :=
-  match i with
-  | IScalar pt k => TScalar pt k
-  | IExt tn k => TExt tn k
-  | IObject n => TObject [] n
-  | IOneof n => TOneof [] n
-  | IEnum n => TEnum [] n
-  end.
-(* an inline (anonymous) schema becomes a type nested in the message, named Camel(field name);
-   as the value of a map it sits inside the map type *)
-Definition sp_inline_type (container : N) (field : bytes) (k : N) : otype :=
-  if container =? 2 then TMap (TNested (to_camel field) k) else TNested (to_camel field) k.
-Definition sp_declared_type (u : ufield) : otype :=
-  match uf_kind u with
-  | KScalar pt k => TScalar pt k
-  | KObject n => TObject [] n
-  | KOneof n => TOneof [] n
-  | KEnum n => TEnum [] n
-  | KKey _ _ _ => TScalar 9 (bs "key")          (* a string carrying the key annotation *)
-  | KExt tn k => TExt tn k
-  | KArray i => sp_item_type i
-  | KMap v => TMap (sp_item_type v)
-  | KInlineObject _ => sp_inline_type (uf_container u) (uf_name u) 0
-  | KInlineOneof _ => sp_inline_type (uf_container u) (uf_name u) 1
-  | KInlineEnum _ => sp_inline_type (uf_container u) (uf_name u) 2
-  | KInlineTree k _ => sp_inline_type (uf_container u) (uf_name u) k
-  end.
-Definition sp_repeated (u : ufield) : bool :=
-  match uf_kind u with
-  | KArray _ | KMap _ => true
-  | KInlineObject _ | KInlineOneof _ | KInlineEnum _ | KInlineTree _ _ => negb (uf_container u =? 0)
-  | _ => false
-  end.
-Definition sp_key_flags (u : ufield) : bool * option bytes * option (bytes * bytes) :=
-  match uf_kind u with
-  | KKey p fo te => (p, te, fo)
-  | _ => (false, None, None)
-  end.
-
-(* a property of a generated message IS the declared field: name, type, repeated, key flags
-   (primary / tenant / foreign key), never flattened *)
-Definition field_as_declared (u : ufield) (f : ofield) : Prop :=
-  f_json f = uf_name u /\ f_type f = sp_declared_type u /\ f_repeated f = sp_repeated u
-  /\ (f_primary f, f_tenant f, f_foreign f) = sp_key_flags u /\ f_flatten f = false.
-
-Definition spec_field_types (e : entity) (cs : list component) : Prop :=
-  exists mk md,
-    has_msg cs 0 mk /\ m_name mk = sp_name e "Keys" /\ has_msg cs 0 md /\ m_name md = sp_name e "Data"
-    /\ Forall2 (fun k f => field_as_declared (k_def k) f) (e_keys e) (m_fields mk)
-    /\ Forall2 field_as_declared (e_data e) (m_fields md).
-
 Lemma of_ufield_as_declared : forall u, field_as_declared u (of_ufield u).
 Proof.
   intros u. unfold field_as_declared, of_ufield, sp_declared_type, sp_repeated, sp_key_flags, sp_inline_type, inline_type.
